@@ -144,16 +144,30 @@ func CheckProperty(ps PropertySpec, tier string, seed int64) int {
 		for _, m := range p.Monitors {
 			want[m] = true
 		}
+		// a verdict needs a reproducible observation: re-run every failing case once and let
+		// TLC judge the second observation too
+		var again []Case
+		seen := map[string]bool{}
+		for _, fl := range rep.Fails {
+			if want[fl.Monitor] && !seen[fl.Case.Key] {
+				seen[fl.Case.Key] = true
+				again = append(again, fl.Case)
+			}
+		}
+		confirmed := map[string]bool{}
+		if len(again) > 0 {
+			rep2 := RunFamily(p.Family, Options{Tier: tier, Seed: seed, OnlyCases: again})
+			for _, fl := range rep2.Fails {
+				confirmed[fl.Case.Key+"/"+fl.Monitor] = true
+			}
+		}
 		for _, fl := range rep.Fails {
 			if !want[fl.Monitor] {
 				continue
 			}
-			// re-run for determinism: a verdict needs a reproducible observation
-			again := p.Family.Run(&fl.Case)
-			a, _ := json.Marshal(again.Obs)
-			if string(a) != string(fl.Obs) {
-				fmt.Printf("UNREPRODUCIBLE property=%s case=%s (first %s, then %s)\n", ps.ID, fl.Case.Key, fl.Obs, a)
-				Fatal("observation for case %s did not reproduce", fl.Case.Key)
+			if !confirmed[fl.Case.Key+"/"+fl.Monitor] {
+				fmt.Printf("UNREPRODUCIBLE property=%s case=%s monitor=%s first observation %s\n", ps.ID, fl.Case.Key, fl.Monitor, fl.Obs)
+				Fatal("monitor failure for case %s did not reproduce on a second run", fl.Case.Key)
 			}
 			matched := false
 			for _, k := range known {
